@@ -7,7 +7,7 @@ import z3
 from . import vals
 from .vals import (V, VNONE, vbool, vint, vstr, fresh, to_term, from_term, sort_of, coerce,
                    parse_type, fresh_name, DATA, OBJ_LAYOUT)
-from .state import State, Obligation, OutOfSubset, ContractDrift, feasible
+from .state import State, Obligation, OutOfSubset, UnknownName, ContractDrift, feasible
 
 TRUE = z3.BoolVal(True)
 FALSE = z3.BoolVal(False)
@@ -298,7 +298,7 @@ class Engine:
         v = self.reg.global_value(n, self.mod)
         if v is not None:
             return [(st, v)]
-        raise OutOfSubset(f"unknown name {n} at line {node.lineno}")
+        raise UnknownName(f"unknown name {n} at line {node.lineno}")
 
     def ev_Tuple(self, node, st):
         return [(s, V(("tuple", tuple(v.t for v in vs)), tuple(vs))) for s, vs in self.ev_seq(node.elts, st)]
